@@ -30,6 +30,12 @@ pub fn gen(rng: &mut Rng, n: usize, thorough: bool, stats: &mut Stats) -> Vec<St
 	let mut out = vec![];
 	for case in 0..n {
 		out.push(format!("case {}", case));
+		if case == 0 {
+			for c in ["static", "stream_sound", "stream_decoder", "track", "clock", "listener", "lfo", "tweener", "filter"] {
+				out.push(format!("readers {}", c));
+			}
+			stats.hit("readers_from_source");
+		}
 		out.push("mgr".into());
 		// streaming cases involve a real decoder thread and sleeps: keep them rare
 		if case % (if thorough { 20 } else { 60 }) == 3 {
@@ -351,6 +357,72 @@ fn op(st: &mut St, line: &str, detail: &str, out: &mut Out) -> String {
 			}
 			format!("seek={}", got as u8)
 		}
+		"readers" => readers_from_source(tok[1]),
 		_ => "bad-op".into(),
+	}
+}
+
+/// The command readers a component reads in its per-callback function, in textual order, extracted
+/// from /repo's source *now* (ties Model/CommandReaders.lean to the code on every run).
+fn readers_from_source(component: &str) -> String {
+	let (file, func) = match component {
+		"static" => ("sound/static_sound/sound.rs", "fn read_commands"),
+		"stream_sound" => ("sound/streaming/sound.rs", "fn read_commands"),
+		"stream_decoder" => ("sound/streaming/sound/decode_scheduler.rs", "pub fn run"),
+		"track" => ("track/sub.rs", "fn read_commands"),
+		"clock" => ("clock.rs", "fn on_start_processing"),
+		"listener" => ("listener.rs", "fn on_start_processing"),
+		"lfo" => ("modulator/lfo.rs", "fn on_start_processing"),
+		"tweener" => ("modulator/tweener.rs", "fn on_start_processing"),
+		"filter" => ("effect/filter.rs", "fn on_start_processing"),
+		_ => return "bad-op".into(),
+	};
+	let src = match std::fs::read_to_string(format!("/repo/crates/kira/src/{}", file)) {
+		Ok(s) => s,
+		Err(_) => return "no-source".into(),
+	};
+	let Some(start) = src.find(func) else { return "no-fn".into() };
+	let Some(open) = src[start..].find('{') else { return "no-fn".into() };
+	let mut depth = 0i32;
+	let mut end = src.len();
+	for (i, c) in src[start + open..].char_indices() {
+		match c {
+			'{' => depth += 1,
+			'}' => {
+				depth -= 1;
+				if depth == 0 {
+					end = start + open + i;
+					break;
+				}
+			}
+			_ => {}
+		}
+	}
+	let body = &src[start + open..end];
+	// occurrences, by position
+	let mut found: Vec<(usize, String)> = vec![];
+	let mut from = 0;
+	while let Some(p) = body[from..].find("command_readers.") {
+		let at = from + p + "command_readers.".len();
+		let name: String = body[at..].chars().take_while(|c| c.is_alphanumeric() || *c == '_').collect();
+		found.push((at, name));
+		from = at;
+	}
+	from = 0;
+	while let Some(p) = body[from..].find("read_commands_into_parameters!(") {
+		let at = from + p + "read_commands_into_parameters!(".len();
+		let close = body[at..].find(')').unwrap_or(0);
+		let args: Vec<&str> = body[at..at + close].split(',').map(|x| x.trim()).filter(|x| !x.is_empty()).collect();
+		for (j, a) in args.iter().enumerate().skip(1) {
+			found.push((at + j, format!("set_{}", a)));
+		}
+		from = at;
+	}
+	found.sort();
+	let names: Vec<String> = found.into_iter().map(|x| x.1).collect();
+	if names.is_empty() {
+		"-".into()
+	} else {
+		names.join(",")
 	}
 }
